@@ -322,6 +322,8 @@ def pred_dhg(snap, op, prev, exc):
 
 
 def run(ctx):
+    import warnings
+    warnings.filterwarnings("ignore", message=".*is deprecated in SimplicialComplex.*")   # stderr noise of the probes
     from ..c18_translate import extract
     tab = extract()
     ctx.extra["freeze_table"] = {k: v["frozen"] for k, v in tab.items()}
